@@ -278,6 +278,7 @@ func (p *c06) branchRows(b int, t []any) []string {
 func (p *c06) RunCase(i int) *core.CaseResult {
 	defer withNoise()()
 	r := &core.CaseResult{}
+	defer withUsage(r, "C06")()
 	c := &p.cases[i]
 	sql := p.sqlOf(c)
 	for _, rows := range p.tables {
